@@ -29,13 +29,21 @@ def incompatible(A, B, a, b):
     return z3.Or(t(a, "width") != t(b, "width"), t(a, "depth") != t(b, "depth"), t(a, "max_key_len") != t(b, "max_key_len"))
 
 
-def check_pair(chk, ex, A, B):
+def check_pair(chk, ex, A, B, phi=(True, True)):
+    """phi: for heavy hitters, whether each operand is built with phi=None (phi is not one of the
+    property's merge parameters: operands that differ only in phi must merge)"""
     name = "%s.merge(%s)" % (A, B)
-    a, selfs, _ = _glue.good_objects(ex, A, "a")
+    if phi != (True, True):
+        name += "[phi %s/%s]" % tuple("default" if x else "given" for x in phi)
+    a, selfs, _ = _glue.good_objects(ex, A, "a", phi_none=phi[0])
     for sref, st0 in selfs:
-        b, others, _ = _glue.good_objects(ex, B, "b", st=st0.fork())
+        b, others, _ = _glue.good_objects(ex, B, "b", st=st0.fork(), phi_none=phi[1])
         for oref, st1 in others:
             inc = incompatible(A, B, a, b)
+
+            def mfound(pc, goal, a=a, b=b):
+                return lambda: model_pair(chk, A, B, a, b, pc, goal) or replay_search(chk, A, B)
+
             st = st1.fork()
             n_raise = n_ret = 0
             for out, eff in _glue.call_method(ex, st, sref, "merge", [oref]):
@@ -52,10 +60,10 @@ def check_pair(chk, ex, A, B):
                     chk.rows.append({"name": "%s:refusal-changes-nothing#%d" % (name, n_raise), "kind": "G", "backend": "pyexec", "result": "proved" if ok2 else "refuted", "instances": 1, "seconds": 0, "units": 0})
                     if not ok2:
                         chk.violation("%s:refusal-changes-nothing" % name, {"verdict": "refuted", "detail": "effects before the raise: %s" % [e[0] for e in muts]}, replay_search(chk, A, B))
-                    chk.prove("%s:refused=>incompatible#%d" % (name, n_raise), pc, inc, tag="G")
+                    chk.prove("%s:refused=>incompatible#%d" % (name, n_raise), pc, inc, tag="G", found=mfound(pc, inc))
                 else:
                     n_ret += 1
-                    chk.prove("%s:accepted=>compatible#%d" % (name, n_ret), pc, z3.Not(inc), tag="G")
+                    chk.prove("%s:accepted=>compatible#%d" % (name, n_ret), pc, z3.Not(inc), tag="G", found=mfound(pc, z3.Not(inc)))
                     ks = [e for e in eff if e[0] == "kernel"]
                     ok = len(ks) == 1 and ks[0][1] == MERGE_KERNEL[A]
                     chk.rows.append({"name": "%s:calls-merge-kernel#%d" % (name, n_ret), "kind": "G", "backend": "pyexec", "result": "proved" if ok else "refuted", "instances": 1, "seconds": 0, "units": 0})
@@ -125,6 +133,78 @@ def same(a, b):
     return a.keys() == b.keys() and all(np.array_equal(a[k], b[k]) for k in a)
 
 
+MERGE_PARAMS = {"CountMinLinear": ["width", "depth"], "CountMinLog16": ["width", "depth", "max_count", "num_reserved"], "CountMinLog8": ["width", "depth", "max_count", "num_reserved"], "HyperLogLog": ["p", "seed"], "HeavyHitters": ["width", "depth", "max_key_len"]}
+
+
+def try_pair(chk, ca, a, cb, b, how):
+    """run merge on the real classes for one ordered pair of configurations -> failing-input dict / None"""
+    try:
+        x, y = build(chk, ca, a), build(chk, cb, b)
+    except (ValueError, TypeError, MemoryError, OverflowError):
+        return None
+    for s in (x, y):
+        s.add(b"k1")
+        s.add(b"k2")
+    sx, sy = snapshot(x), snapshot(y)
+    compatible = ca == cb and all(a.get(k) == b.get(k) for k in MERGE_PARAMS[ca])
+    try:
+        x.merge(y)
+        raised = None
+    except Exception as e:
+        raised = type(e).__name__
+    bad = None
+    if compatible and raised is not None:
+        bad = "compatible sketches refused (%s)" % raised
+    if not compatible and raised != "TypeError":
+        bad = "incompatible sketches: %s" % ("merge accepted" if raised is None else "raised %s instead of TypeError" % raised)
+    if not compatible and (not same(sx, snapshot(x)) or not same(sy, snapshot(y))):
+        bad = (bad or "") + " operands modified"
+    if bad:
+        return {"key": "%s(%s).merge(%s(%s))" % (ca, a, cb, b), "self": [ca, a], "other": [cb, b], "observed": bad, "expected": "TypeError and unchanged operands" if not compatible else "merge succeeds", "how": how}
+    return None
+
+
+def model_pair(chk, A, B, a, b, pc, goal):
+    """replay of a refuted merge obligation: the solver's counterexample (small values preferred)
+    gives the two constructor argument sets; merge is then run on the real classes"""
+    small = []
+    for d in (a, b):
+        for k, v in d.items():
+            if isinstance(v, Sym) and z3.is_int(v.t):
+                small.append(z3.And(v.t >= 1, v.t <= (12 if k in ("p", "depth", "max_key_len") else 4096)))
+    for extra in (small, []):
+        s = z3.Solver()
+        s.set("timeout", 20000)
+        for h in pc:
+            s.add(h)
+        s.add(z3.Not(goal))
+        for f in extra:
+            s.add(f)
+        if s.check() != z3.sat:
+            continue
+        m = s.model()
+        cfgs = []
+        for d in (a, b):
+            cfg = {}
+            for k, v in d.items():
+                if not isinstance(v, Sym):
+                    continue
+                val = m.eval(v.t, model_completion=True)
+                if z3.is_int_value(val):
+                    cfg[k] = val.as_long()
+                elif z3.is_rational_value(val):
+                    cfg[k] = float(val.numerator_as_long()) / float(val.denominator_as_long())
+                else:
+                    break
+            cfgs.append(cfg)
+        if any(v > 10**7 for c in cfgs for k, v in c.items() if k in ("width", "depth", "max_key_len")) or any(c.get("p", 8) > 16 for c in cfgs):
+            continue  # would not fit in memory
+        r = try_pair(chk, A, cfgs[0], B, cfgs[1], "solver counterexample of the merge obligation, run on the real classes")
+        if r:
+            return r
+    return None
+
+
 def replay_search(chk, A=None, B=None):
     """bounded search on the real classes: every ordered pair of a configuration grid per family"""
     cf = configs()
@@ -134,29 +214,9 @@ def replay_search(chk, A=None, B=None):
         for (ca, a), (cb, b) in itertools.product(items, items):
             if A is not None and (ca != A or cb != B):
                 continue
-            try:
-                x, y = build(chk, ca, a), build(chk, cb, b)
-            except ValueError:
-                continue
-            for s in (x, y):
-                s.add(b"k1")
-                s.add(b"k2")
-            sx, sy = snapshot(x), snapshot(y)
-            compatible = ca == cb and a == b
-            try:
-                x.merge(y)
-                raised = None
-            except Exception as e:
-                raised = type(e).__name__
-            bad = None
-            if compatible and raised is not None:
-                bad = "compatible sketches refused (%s)" % raised
-            if not compatible and raised != "TypeError":
-                bad = "incompatible sketches: %s" % ("merge accepted" if raised is None else "raised %s instead of TypeError" % raised)
-            if not compatible and (not same(sx, snapshot(x)) or not same(sy, snapshot(y))):
-                bad = (bad or "") + " operands modified"
-            if bad:
-                return {"key": "%s(%s).merge(%s(%s))" % (ca, a, cb, b), "self": [ca, a], "other": [cb, b], "observed": bad, "expected": "TypeError and unchanged operands" if not compatible else "merge succeeds", "how": "bounded grid on the real classes"}
+            r = try_pair(chk, ca, a, cb, b, "bounded grid on the real classes")
+            if r:
+                return r
     return None
 
 
@@ -164,10 +224,11 @@ def run(chk):
     ex = glue.make_exec(chk)
     pairs = [(a, b) for a in CM for b in CM] + [("HyperLogLog", "HyperLogLog"), ("HeavyHitters", "HeavyHitters")]
     for A, B in pairs:
-        try:
-            check_pair(chk, ex, A, B)
-        except X.Unsupported as e:
-            chk.undecided.append(("%s.merge(%s)" % (A, B), "unsupported construct in glue: %s" % e))
+        for phi in ([(True, True)] if A != "HeavyHitters" else [(True, True), (False, False), (True, False), (False, True)]):
+            try:
+                check_pair(chk, ex, A, B, phi)
+            except X.Unsupported as e:
+                chk.undecided.append(("%s.merge(%s)" % (A, B), "unsupported construct in glue: %s" % e))
     ex2 = glue.make_exec(chk, {("call", "HeavyHitters.generate_candidate_set"): glue._stub_gcs})
     try:
         _glue.field_stability(chk, ex2)
